@@ -152,13 +152,14 @@ type world struct {
 	st      [nWorkers]tstate
 	parkCh  chan parkEv
 
-	mu      sync.Mutex
-	events  []string
-	regs    []*regRec       // every effective registration, in order (harness bookkeeping, not return values)
-	open    map[[2]int]bool // (p,h) was registered while p was running
-	runs    []runRec
-	joinObs []string // audit failures noticed while the case runs
-	stuck   string
+	mu       sync.Mutex
+	events   []string
+	regs     []*regRec       // every effective registration, in order (harness bookkeeping, not return values)
+	open     map[[2]int]bool // (p,h) was registered while p was running
+	runs     []runRec
+	joinObs  []string // audit failures noticed while the case runs
+	readSaid bool     // the read/listing disagreement has been reported for this case
+	stuck    string
 
 	// reference of the value clause ("from termination on the process's own values are cleared"),
 	// kept from the script alone: own[p] = keys set on p and not removed, emptied when p is first
@@ -427,7 +428,24 @@ func (w *world) exec(line string) (out string, ok bool) {
 		if p < 0 || p >= len(w.procs) || k < 0 {
 			return bad()
 		}
-		return w.digest(showVal(w.procs[p].Value(k))), true
+		v := w.procs[p].Value(k)
+		// a read and the listing of the same process agree: Value(k) is non-nil exactly when Keys() lists k
+		// (every value the script sets is a non-nil int; seeded change c04j: Value of a process that exited
+		// with an error answers nil without looking, also for values inherited from a running ancestor and
+		// for values written after the exit, which Keys still lists)
+		listed := false
+		for _, kk := range w.procs[p].Keys() {
+			if kk == any(k) {
+				listed = true
+			}
+		}
+		if listed != (v != nil) && !w.readSaid {
+			w.readSaid = true
+			w.mu.Lock()
+			w.joinObs = append(w.joinObs, fmt.Sprintf("values: Value(p%d, %d) = %s although Keys(p%d) lists key %d: %v (p%d terminated: %v, Err %v)", p, k, showVal(v), p, k, listed, p, w.procs[p].Status() == process.StatusTerminated, w.procs[p].Err()))
+			w.mu.Unlock()
+		}
+		return w.digest(showVal(v)), true
 	case len(f) == 2 && f[1] == "go":
 		t := num(f[0])
 		if t < 0 || t >= nWorkers || w.st[t].kind != 1 {
@@ -853,6 +871,8 @@ func classOf(what string) string {
 	switch {
 	case strings.Contains(what, "panic"):
 		return "panic"
+	case strings.HasPrefix(what, "values: Value("):
+		return "value-read-disagrees-with-keys"
 	case strings.HasPrefix(what, "values:"):
 		return "values-not-cleared"
 	case strings.Contains(what, "registration refused"):
